@@ -20,7 +20,7 @@ from hypothesis import strategies as st
 from gen.common import sched_line, stat
 from gen.topo import topologies
 
-RULE = ("case = topology + creation tree + bodies + schedule; non-trivial = at least 3 units "
+RULE = ("variant xsjoin: see gen/c06.py (non-trivial = a stream join issued with unfinished units); otherwise: case = topology + creation tree + bodies + schedule; non-trivial = at least 3 units "
         "started and at least one of: >= 2 streams, a unit yielded (re-push between pop and "
         "pop), a stacked scheduler ran units, a pool shared by two streams; distinct = distinct "
         "case text")
@@ -61,6 +61,17 @@ def can_produce(t, creator, p, spmc_owner):
 
 @st.composite
 def cases(draw, ctx):
+    if ctx.get("variant") == "xsjoin":
+        # "... or before ABT_xstream_join/free of the only stream serving its pool returns":
+        # the unjoined-unit programs of gen/c06.py (units blocked / being resumed by other
+        # threads while their stream is joined)
+        from gen import c06
+        return draw(c06.cases(ctx)) + "note c01-xsjoin\n"
+    return draw(cases_main(ctx))
+
+
+@st.composite
+def cases_main(draw, ctx):
     t = draw(topologies(max_xs=4))
     nunits = draw(st.integers(3, 20))
     main = Act("main")
@@ -219,7 +230,10 @@ def classify(text, res, ctx):
             out.append("shared_pool")
         if int(m.group(3)):
             out.append("stacked_sched")
-    for k in ("create_to", "revives", "join_before_end", "contended_lock", "set_with_waiter"):
+    if "note c01-xsjoin" in text:
+        out.append("xsjoin_variant")
+    for k in ("create_to", "revives", "join_before_end", "contended_lock", "set_with_waiter",
+              "xsjoin_with_pending_units"):
         if stat(res, k):
             out.append(k)
     for k in ("kind=randws", "kind=fifo_wait", "access=priv", "access=spsc", "access=spmc",
@@ -230,6 +244,8 @@ def classify(text, res, ctx):
 
 
 def nontrivial(text, res, ctx):
+    if "note c01-xsjoin" in text:
+        return stat(res, "xsjoin_with_pending_units") >= 1
     import re
     m = re.search(r"note nxs=(\d+) shared=(\d+) subs=(\d+)", text)
     rich = m and (int(m.group(1)) >= 2 or int(m.group(2)) or int(m.group(3)))
@@ -237,7 +253,8 @@ def nontrivial(text, res, ctx):
 
 
 PLAN = {
-    "quick": [("coarse", 7, 250), ("fine", 4, 200), ("san", 3, 80), ("native", 2, 150)],
+    "quick": [("coarse", 6, 250), ("fine", 3, 200), ("san", 3, 80), ("native", 2, 150),
+              ("coarse", 4, 250, "xsjoin"), ("native", 1, 150, "xsjoin")],
     "thorough": [("coarse", 6, 5000), ("fine", 6, 3000), ("san", 2, 1500), ("nopool", 1, 1000),
-                 ("native", 1, 2500)],
+                 ("native", 1, 2500), ("coarse", 3, 5000, "xsjoin"), ("fine", 2, 3000, "xsjoin")],
 }
